@@ -59,13 +59,13 @@ REQUIRED_CLASSES = [
 BOUND = {
     'quick': '2 geometries x 4 energy units x 3x3 length units (mm, m, km) x 4 tof units x 2x2 dtypes = 1152 cases; '
              'Ei, Ef in {1e-3, 0.5, 25, 300, 1e4} meV, L1, L2 in {0.1, 1.3, 30, 1e3} m: 400 flights + 20 boundaries per case',
-    'thorough': 'length units {um, mm, cm, m, km} (25 pairs) = 3200 cases; Ei, Ef in 9 values 1e-3..1e4 meV, '
+    'thorough': 'length units {angstrom, um, mm, cm, m, km} (36 pairs) = 4608 cases; Ei, Ef in 9 values 1e-3..1e4 meV, '
                 'L1, L2 in 7 values 0.1..1e3 m: 3969 flights + 63 boundaries per case',
 }
 
 E_UNITS = ('meV', 'ueV', 'eV', 'J')
 T_UNITS = ('us', 'ns', 'ms', 's')
-L_UNITS = {'quick': ('m', 'mm', 'km'), 'thorough': ('m', 'mm', 'km', 'cm', 'um')}
+L_UNITS = {'quick': ('m', 'mm', 'km'), 'thorough': ('m', 'mm', 'km', 'cm', 'um', 'angstrom')}
 DTYPES = ('float64', 'float32')
 E_MEV = {
     'quick': (25.0, 1e-3, 0.5, 300.0, 1e4),
